@@ -126,10 +126,12 @@ def _scalar(draw, kind, cls=None, unsigned=False):
 
 
 @st.composite
-def _leaf_space(draw, kind, size=None):
+def _leaf_space(draw, kind, size=None, shape=None):
     if size is None:
         size = draw(st.sampled_from(vs.SIZE_STRATA))
-    shape = draw(vs.shapes_for_size(size, max_ndim=3 if size < 1000 else 2))
+    if shape is None:
+        shape = draw(vs.shapes_for_size(size,
+                                        max_ndim=3 if size < 1000 else 2))
     dtypes = {'real': ['float64', 'float32'],
               'cplx': ['complex128', 'complex64'],
               'int': ['int64', 'int32', 'int8', 'uint8']}[kind]
@@ -154,6 +156,12 @@ def _space(draw):
     sk = draw(st.sampled_from(['leaf', 'leaf', 'leaf', 'pspace', 'large']))
     if sk == 'large':
         size = draw(st.sampled_from(vs.LARGE_SIZES))
+        if draw(st.integers(0, 3)) == 0:
+            # one axis alone crosses the size threshold (size != len(x),
+            # size != shape[k]): the regime must be decided by the entry count
+            k = draw(st.sampled_from([2, 3]))
+            shape = draw(st.permutations([size, k]))
+            return kind, draw(_leaf_space(kind, size * k, shape=shape))
         return kind, draw(_leaf_space(kind, size))
     if sk == 'leaf':
         return kind, draw(_leaf_space(kind))
@@ -648,6 +656,10 @@ def run_case(desc):
         strata.append('a:' + desc['a']['cls'])
     if 'b' in desc:
         strata.append('b:' + desc['b']['cls'])
+    if total >= 50000 and any(
+            len(l['shape']) >= 2 and max(l['shape']) < build.space_size(l)
+            and max(l['shape']) >= 49999 for l in build.leaf_descs(sd)):
+        strata.append('regime:large-by-one-axis')
     if stale_checked:
         strata.append('stale-out-checked')
     if desc.get('zero_div'):
@@ -672,5 +684,6 @@ def _regime(total):
 
 REQUIRED_STRATA = ['zero-divisor', 'huge-scalar-single-precision',
                    'regime:small', 'regime:medium', 'regime:large',
+                   'regime:large-by-one-axis',
                    'kind:int', 'kind:cplx', 'alias:all', 'alias:outx2',
                    'stale-out-checked', 'space:pspace', 'space:discr']
